@@ -37,6 +37,9 @@ type respEv struct {
 type respCase struct {
 	ID     int             `json:"id"`
 	Script []respEv        `json:"script"`
+	// NoReopen: after a scripted send failure the responder cannot open a sender to the peer again either (for the model the
+	// outcome of the send is the same: failed)
+	NoReopen bool `json:"noReopen,omitempty"`
 	Finals json.RawMessage `json:"finals,omitempty"`
 }
 type respObs struct {
@@ -581,11 +584,18 @@ func runRespCase(c respCase) (obs respObs) {
 				if e.Ev == "sendok" {
 					heldSend <- verifnet.Deliver
 				} else {
+					if c.NoReopen {
+						net.SetConnectError(pS, pP, errors.New("verif: peer cannot be reached"))
+					}
 					heldSend <- verifnet.Fail
 				}
 				heldSend = nil
 				if e.Ev == "sendfail" {
 					time.Sleep(115 * time.Millisecond)
+					if c.NoReopen {
+						time.Sleep(30 * time.Millisecond)
+						net.SetConnectError(pS, pP, nil)
+					}
 				} else {
 					time.Sleep(500 * time.Microsecond)
 				}
